@@ -71,6 +71,9 @@ func rwRun(t *testing.T, c rwCase, opt rwOptions) (res rwResult) {
 		after := func() {
 			vfQuiesce()
 			w.syncNodes()
+			if len(w.nodes) > 0 {
+				w.checkLiveRegistered()
+			}
 			w.observe()
 			res.Unconfirmed = append(res.Unconfirmed, w.checkAcks(checked)...)
 			rwClassify(w, &res)
